@@ -148,13 +148,50 @@ def _has_nonlinear(terms):
     return False
 
 
+_TOP_CACHE = {}
+
+
+def _mentions_app(t, cache, apps):
+    """does t contain an uninterpreted application (possibly one already collected from an earlier conjunct)?"""
+    if not apps:
+        return False
+    consts = {c.get_id() for c, _args in apps.values()}
+    todo, seen = [cache[t.get_id()]], set()
+    while todo:
+        e = todo.pop()
+        i = e.get_id()
+        if i in seen:
+            continue
+        seen.add(i)
+        if i in consts:
+            return True
+        todo.extend(e.children())
+    return False
+
+
 def fast_unsat(terms, timeout_ms):
     """True iff the conjunction is proved unsat by the relaxed nlsat route; False = don't know."""
     try:
         if not has_nonlinear(terms):
             return False
         cache, apps = {}, {}
-        fm = [_translate(t, cache, apps) for t in terms]
+        fm = []
+        for t in terms:
+            # top-level conjuncts recur from one feasibility query to the next (the path condition only grows):
+            # keep the translation of those that contain no uninterpreted application (for which `apps` must be
+            # rebuilt per query).  The stored reference keeps the term alive, so its id cannot be reused.
+            k = t.get_id()
+            hit = _TOP_CACHE.get(k)
+            if hit is not None and hit[0].eq(t):
+                fm.append(hit[1])
+                continue
+            before = len(apps)
+            r = _translate(t, cache, apps)
+            if len(apps) == before and not _mentions_app(t, cache, apps):
+                if len(_TOP_CACHE) > 20000:
+                    _TOP_CACHE.clear()
+                _TOP_CACHE[k] = (t, r)
+            fm.append(r)
     except _Bail:
         return False
     except z3.Z3Exception:
